@@ -777,6 +777,40 @@ fn long_vectors(seed: u64, rep: &mut Report) {
     }
 }
 
+/// Repetition over an input that owns a lot of memory: the copies are made and consumed one
+/// at a time, so N repetitions of a 1 GiB input need the room of two of them, not of N. The
+/// input's clone reserves its capacity without touching it (cheap), the check runs under the
+/// supervisor's address-space limit, and holding all 64 copies at once exceeds it.
+fn repeat_over_a_big_input(seed: u64, rep: &mut Report) {
+    struct Big(Vec<u8>);
+    impl Clone for Big {
+        fn clone(&self) -> Self {
+            Big(Vec::with_capacity(self.0.capacity()))
+        }
+    }
+    struct Weigh;
+    impl ec_core::operator::Composable for Weigh {}
+    impl Operator<Big> for Weigh {
+        type Output = u64;
+        type Error = Infallible;
+        fn apply<R: Rng + ?Sized>(&self, x: Big, rng: &mut R) -> Result<u64, Infallible> {
+            Ok((x.0.capacity() as u64) ^ (rng.next_u64() & 0xff))
+        }
+    }
+    vh_core::shard::set_context("C14 apply_n_times::<64> over an input that owns 1 GiB".to_string());
+    let mut rng = TraceRng::new(seed);
+    let mut reference = rng.clone();
+    let out = catch(|| Weigh.apply_n_times::<64>().apply(Big(Vec::with_capacity(1 << 30)), &mut rng));
+    rep.eval();
+    rep.count("repeat-over-a-big-input");
+    rep.distinct(fnv_str("repeat-big"));
+    let want: Vec<u64> = (0..64).map(|_| (1u64 << 30) ^ (reference.next_u64() & 0xff)).collect();
+    match out {
+        Ok(Ok(v)) if v.to_vec() == want => {}
+        other => rep.violation("C14/repeat-over-a-big-input", || json!({"repetitions": 64, "input_owns_bytes": 1u64 << 30, "observed": format!("{other:?}").chars().take(300).collect::<String>()})),
+    }
+}
+
 pub fn run(args: &Args) -> i32 {
     let per = args.tier.pick(300_000usize, 5_000_000usize);
     let mut rep = run_shards(64, args.threads, 64 << 20, |s| {
@@ -795,6 +829,7 @@ pub fn run(args: &Args) -> i32 {
     static_shapes(args.seed, &mut extra);
     wrappers(args.seed, &mut extra);
     long_vectors(args.seed, &mut extra);
+    repeat_over_a_big_input(args.seed, &mut extra);
     rep.merge(extra);
     rep.finish(
         args,
